@@ -529,7 +529,7 @@ def mutate_malformed(rng, c, kind):
 
 
 def gen_cases(rng, tier, scale=1):
-    n = int((700 if tier == 'quick' else 12000) * scale)
+    n = int((700 if tier == 'quick' else 60000) * scale)
     cases = []
     for i in range(n):
         r = rng.random()
@@ -652,6 +652,37 @@ def iter_under_iterable(case, fn):
     return False
 
 
+def resumed_after_exhaustion(case):
+    """mirror of the scripted generator: is there a next()/send() after the generator has finished, for a generator whose
+    declared return type is not None (the wrapper then checks the None of the new StopIteration against it)"""
+    rt = case.get('ret')
+    if not (case.get('gen') and rt and rt[0] == 'gen' and rt[2] == 'Generator' and len(rt[3]) == 3):
+        return False
+    if rt[3][2] in (['none'], ['cls', 'NoneType'], ['any'], ['cls', 'object']):
+        return False
+    script, idx, started, done, extra = case['script'], 0, False, False, False
+    for op in case['ops']:
+        if op[0] in ('next', 'send'):
+            if done:
+                return True
+            if not started and op[0] == 'send' and op[1] != ['none']:
+                continue
+            started, extra = True, False
+            if idx < len(script) and script[idx][0] == 'yield':
+                idx += 1
+            else:
+                done = True
+        elif op[0] == 'throw':
+            ot = case.get('on_throw', 'propagate')
+            if done or not started or extra or ot == 'propagate' or ot[0] == 'ret':
+                done = True
+            else:
+                extra = True
+        else:
+            done = True
+    return False
+
+
 MATCHERS = {
     # id -> predicate(case, fn)
     'oneshot_iterator_under_iterable': lambda c, fn: iter_under_iterable(c, fn),
@@ -674,6 +705,7 @@ MATCHERS = {
     # static / class methods are called with the keyword arguments only (_get_return_value): positional values for *args are lost
     'star_elements_dropped_for_static_or_class_method': lambda c, fn: has_varpos(fn) and len(c['args']) > 0
                                                                       and (fn['text']['staticmethod'] or fn['bound'] is not None),
+    'generator_resumed_after_exhaustion': lambda c, fn: resumed_after_exhaustion(c),
     'throw_answered_by_generator': lambda c, fn: bool(c.get('gen')) and c.get('on_throw', 'propagate') != 'propagate'
                                                  and any(o[0] == 'throw' for o in c.get('ops', [])),
     'pedantic_text_in_method_of_pedantic_class': lambda c, fn: c['style'] == 'class_deco' and fn['text']['pedantic'],
